@@ -117,8 +117,11 @@ func c15EnfRun(t *testing.T, cfg c15EnfCfg, depth int, choose func(step, n int) 
 		maxStrikes := 0
 		for step := 0; step < depth; step++ {
 			var evs []c15EnfEv
-			for _, g := range c15EnfGaps {
-				evs = append(evs, c15EnfEv{kind: "ping", gap: g})
+			for i, g := range c15EnfGaps {
+				// the first ping of a connection has no predecessor: only the two extreme delays
+				if havePrev || i == 0 || i == len(c15EnfGaps)-1 {
+					evs = append(evs, c15EnfEv{kind: "ping", gap: g})
+				}
 			}
 			if openID == 0 && opens < c15EnfMaxOpens {
 				evs = append(evs, c15EnfEv{kind: "open"})
@@ -262,8 +265,8 @@ func TestVerif_C15_Enforce(t *testing.T) {
 	const P = "C15"
 	r := vk.Start(t, "c15_enforce", "exploration", P)
 	defer r.Finish()
-	depth := r.Pick(6, 7)
-	r.Rule(P, fmt.Sprintf("(c) server ping-policy enforcement: for MinTime=5s x PermitWithoutStream in {f,t}, every event history of length %d (oracle after every event; a history ends at GOAWAY) over {client PING sent d after the previous event for d in {MinTime-1ms, MinTime, MinTime+1ms, 2h-1ms, 2h}, client opens a stream (one at a time, <=%d), client RST_STREAM, server application sends headers / a data message / trailers (WriteStatus) on the open stream}; real http2Server against a scripted raw client that acknowledges the server's own PINGs, one synctest bubble per history; non-trivial = at least one pair of consecutive pings was closer than the gap required at that moment; distinct by (configuration, event list)", depth, c15EnfMaxOpens))
+	depth := r.Pick(7, 8)
+	r.Rule(P, fmt.Sprintf("(c) server ping-policy enforcement: for MinTime=5s x PermitWithoutStream in {f,t}, every event history of length %d (oracle after every event; a history ends at GOAWAY) over {client PING sent d after the previous event for d in {MinTime-1ms, MinTime, MinTime+1ms, 2h-1ms, 2h} (the first ping of a connection, which has no predecessor, only after MinTime-1ms or 2h), client opens a stream (one at a time, <=%d), client RST_STREAM, server application sends headers / a data message / trailers (WriteStatus) on the open stream}; real http2Server against a scripted raw client that acknowledges the server's own PINGs, one synctest bubble per history; non-trivial = at least one pair of consecutive pings was closer than the gap required at that moment; distinct by (configuration, event list)", depth, c15EnfMaxOpens))
 	r.Assume(P, "reference strike counter (from the statement): a ping is too early when it follows the previous ping by less than MinTime (a stream is open at the raw client, or PermitWithoutStream) resp. 2h (otherwise); server-sent HEADERS/DATA frames (seen on the wire) clear the count; GOAWAY ENHANCE_YOUR_CALM is required exactly at the third counted ping and forbidden before")
 	r.Assume(P, "reading of 'separated by server-sent headers or data' (gRFC A8): a ping that directly follows server-sent headers/data is itself excused (it is separated from its predecessor), so it does not count as the first of the three; histories where the literal count reaches three without GOAWAY are reported in literal_third_too_early_ping_excused_by_preceding_server_frame")
 	r.Assume(P, "the first ping of a connection has no predecessor and is never too early; non-ping events take no virtual time, so the gap between consecutive pings is exactly the chosen d")
